@@ -514,8 +514,11 @@ def gen_line(rng, pair, frd):
     else:
         op = [p[0] + rng.uniform(-0.5, 1.5) * v[0], p[1] + rng.uniform(-0.5, 1.5) * v[1]]
     numbers = sorted(set([1, 2, 3, 9, 11, 18] + [rng.randint(1, 60) for _ in range(6)]))
-    distances = [L / rng.uniform(1.3, 7.7), L * 2.0, [L * 0.13, L * 0.29], L / 4.0,
-                 [L * 0.5, L * 0.1]]
+    # (lists whose entries differ and whose running sums do not land on the end of the segment:
+    # after the list is used up its LAST entry repeats)
+    distances = [L / rng.uniform(1.3, 7.7), L * 2.0, [L * 0.13, L * 0.31], L / 4.0,
+                 [L * 0.5, L * 0.13], [L * 0.2, L * 0.1, L * 0.075],
+                 [L * rng.uniform(0.05, 0.3), L * rng.uniform(0.05, 0.3)]]
     return {'pair': pair, 'frame': frd, 'p': p, 'v': v, 'pts': pts, 'lifts': lifts,
             'params': [0.0, 1.0, 0.5, rng.random(), rng.uniform(-0.5, 1.5)],
             'numbers': numbers, 'distances': distances,
@@ -726,7 +729,8 @@ def gen_arc(rng, frd):
             'pts': pts, 'lifts': lifts, 'lines': lines,
             'params': [0.0, 1.0, 0.5, rng.random(), rng.random()],
             'numbers': sorted(set([1, 2, 3, 7, 9, 11] + [rng.randint(1, 40) for _ in range(3)])),
-            'distances': [L / rng.uniform(1.3, 7.7), L * 2.0, [L * 0.13, L * 0.29]],
+            'distances': [L / rng.uniform(1.3, 7.7), L * 2.0, [L * 0.13, L * 0.31],
+                          [L * 0.2, L * 0.1, L * 0.075]],
             'T': _rand_T(rng, min(m, 50.0))}
 
 
